@@ -33,7 +33,18 @@ def run(ctx):
             raise mir.AnchorMissing(f"{F}: local `{n}` not found")
         return ls[0]
 
-    a_map, p_map, n_map = named("atom_to_interned"), named("pair_to_interned"), named("node_to_interned")
+    def by_type(prefix, what):
+        ls = [l for l in range(f.nargs + 1, len(f.locals)) if f.local_name(l) and f.local_ty(l).startswith("std::collections::HashMap<" + prefix)]
+        if len(ls) != 1:
+            raise mir.AnchorMissing(f"{F}: expected exactly one {what} (HashMap<{prefix}..>), found {len(ls)}")
+        return ls[0]
+    a_map = by_type("allocator::Atom<", "atom de-duplication map")
+    p_map = by_type("(allocator::NodePtr, allocator::NodePtr)", "pair de-duplication map")
+    n_map = by_type("allocator::NodePtr, allocator::NodePtr>", "source-node -> interned-node map")
+    KEEP = {a_map: "ATOMS", p_map: "PAIRS", n_map: "DONE"}
+
+    def dn(e):
+        return show(f.denamed(e, KEEP))
     ck.ob("R24a", F + "|atom map type", "HashMap<allocator::Atom" in f.local_ty(a_map),
           "atom_to_interned is keyed by Atom (content equality and hash)", site=f.where(0), detail=f.local_ty(a_map))
     ck.ob("R24a", F + "|pair map type", "HashMap<(allocator::NodePtr, allocator::NodePtr)" in f.local_ty(p_map),
@@ -44,31 +55,85 @@ def run(ctx):
     p_entry = [(b, t) for b, t in entries if any(x[0] in ("var", "named") and x[2] == p_map for x in walk(f.expr_op(t["args"][0], deep=False)))]
     if len(a_entry) != 1 or len(p_entry) != 1:
         raise mir.AnchorMissing(f"{F}: expected one entry() call per de-duplication map")
-    # pair key: tuple(*l, *r) with l,r from node_to_interned.get(&left)/(&right)
-    gets = {}
-    for b, t in f.calls():
-        if (t.get("callee") or "").endswith("HashMap::<K, V, S, A>::get") and any(x[0] in ("var", "named") and x[2] == n_map for x in walk(f.expr_op(t["args"][0], deep=False))):
-            gets[t["dst"]["l"]] = show(f.expr_op(t["args"][1], deep=False))
+    # pair key = (DONE[left], DONE[right]) where (left, right) are the children of the source pair being processed
+    CUR_PAIR = "(Allocator::sexp(&$1, CUR) as Pair)"
     key = strip(f.expr_op(p_entry[0][1]["args"][1]))
-    det = {"lookups": sorted(gets.values()), "key": show(key)[:200]}
-    okk = key[0] == "agg" and key[1] == "tuple" and len(key[2]) == 2
-    if okk:
-        k0, k1 = show(key[2][0], short=False), show(key[2][1], short=False)
-        # left_interned = node_to_interned.get(&left), right_interned = ...get(&right); key = (*left_interned?, *right_interned?)
-        by_name = {f.local_name(l): a for l, a in gets.items()}
-        okk = by_name.get("left_interned") == "&left" and by_name.get("right_interned") == "&right" and \
-            "tuple(left_interned, right_interned).0 as Some" in k0 and "tuple(left_interned, right_interned).1 as Some" in k1
-    ck.ob("R24a", F + "|pair key", okk and sorted(gets.values()) == ["&left", "&right"],
-          "the pair key is (interned(left), interned(right)): the results of node_to_interned.get(&left) and .get(&right), in that order",
-          site=f.where(p_entry[0][0]), detail=det)
-    akey = show(f.expr_op(a_entry[0][1]["args"][1], deep=False))
-    ck.ob("R24a", F + "|atom key", akey == "atom" and any("Allocator::atom(&source, current)" in show(f.expr_rvalue(f.def_rvalue(d), deep=False)).replace("*", "")
-                                                     for l in f.local_by_name("atom") for d in f.defs(l)),
-          "the atom key is source.atom(current)", site=f.where(a_entry[0][0]), detail=akey)
+    # the node being processed: the value popped from the work stack (any name)
+    import re as _re
 
+    def canon(t):
+        """replace every `(Allocator::sexp(&$1, <node>) as Pair)` by SRCPAIR (balanced parentheses)"""
+        head = "(Allocator::sexp(&$1, "
+        out = ""
+        i = 0
+        while True:
+            j = t.find(head, i)
+            if j < 0:
+                return out + t[i:]
+            depth, k = 0, j
+            while k < len(t):
+                if t[k] == "(":
+                    depth += 1
+                elif t[k] == ")":
+                    depth -= 1
+                    if depth == 0:
+                        break
+                k += 1
+            seg = t[j:k + 1]
+            if seg.endswith(" as Pair)"):
+                out += t[i:j] + "SRCPAIR"
+            else:
+                out += t[i:k + 1]
+            i = k + 1
+    def unopt(t):
+        """`*opt_ref` and `opt.copied()` denote the same value"""
+        t = t.replace("(::copied(::get(&DONE, &SRCPAIR.0)) as Some).0", "*(::get(&DONE, &SRCPAIR.0) as Some).0")
+        t = t.replace("(::copied(::get(&DONE, &SRCPAIR.1)) as Some).0", "*(::get(&DONE, &SRCPAIR.1) as Some).0")
+        t = t.replace("(::cloned(::get(&DONE, &SRCPAIR.0)) as Some).0", "*(::get(&DONE, &SRCPAIR.0) as Some).0")
+        t = t.replace("(::cloned(::get(&DONE, &SRCPAIR.1)) as Some).0", "*(::get(&DONE, &SRCPAIR.1) as Some).0")
+        return t
+    ktxt = unopt(canon(dn(key)))
+    want_key = "tuple(*(::get(&DONE, &SRCPAIR.0) as Some).0, *(::get(&DONE, &SRCPAIR.1) as Some).0)"
+    ck.ob("R24a", F + "|pair key", ktxt == want_key,
+          "the pair key is (interned(left), interned(right)): the entries of the done-map for the source pair's first and second child, in that order",
+          site=f.where(p_entry[0][0]), detail=ktxt[:300])
+    akey = canon(dn(f.expr_op(a_entry[0][1]["args"][1])))
+    ck.ob("R24a", F + "|atom key", _re.fullmatch(r"Allocator::atom\(&\$1, .+\)", akey) is not None and "sexp" not in akey,
+          "the atom key is source.atom(node being processed)", site=f.where(a_entry[0][0]), detail=akey[:200])
+
+    # the two result tables = the locals stored in InternedTree.atoms / .pairs; CUR = the node being processed (argument of sexp)
+    tree_fields = {}
+    for b in f.reachable_blocks():
+        for st in f.stmts(b):
+            rv = st.get("rv", {})
+            if "agg" in rv and isinstance(rv["agg"][0], dict) and rv["agg"][0].get("adt", "").endswith("InternedTree"):
+                for fname, o in zip(rv["agg"][0]["fields"], rv["agg"][1]):
+                    pl = mir.op_place(o)
+                    tree_fields[fname] = (pl["l"] if pl and not pl["p"] else None, o)
+    def origin(l_):
+        seen_ = set()
+        while l_ is not None and l_ not in seen_ and len(f.defs(l_)) == 1 and f.defs(l_)[0][1] != "T" and "use" in f.def_rvalue(f.defs(l_)[0]) \
+                and mir.op_place(f.def_rvalue(f.defs(l_)[0])["use"]) and not mir.op_place(f.def_rvalue(f.defs(l_)[0])["use"])["p"]:
+            seen_.add(l_)
+            l_ = mir.op_place(f.def_rvalue(f.defs(l_)[0])["use"])["l"]
+        return l_
+    for fname, role in (("atoms", "ATOMS_VEC"), ("pairs", "PAIRS_VEC")):
+        if tree_fields.get(fname, (None,))[0] is None:
+            raise mir.AnchorMissing(f"{F}: InternedTree.{fname} is not built from a local")
+        for l_ in {tree_fields[fname][0], origin(tree_fields[fname][0])}:
+            KEEP[l_] = role
+    cur_l = None
+    for b, t in f.calls_to("allocator::Allocator::sexp"):
+        e = strip(f.expr_op(t["args"][1], deep=False))
+        if e[0] in ("var", "named"):
+            cur_l = e[2]
+    if cur_l is None:
+        raise mir.AnchorMissing(f"{F}: the node being processed (argument of source.sexp()) is not a local")
+    CURX = show(f.denamed(f.expr_local(cur_l), KEEP))     # what CUR is, spelled out (uses of it through temporaries show this)
+    KEEP[cur_l] = "CUR"
     # arms
-    for name, (eb, et), creator, table in (("atom", a_entry[0], "allocator::Allocator::new_atom", "atoms"),
-                                           ("pair", p_entry[0], "allocator::Allocator::new_pair", "pairs")):
+    for name, (eb, et), creator, table in (("atom", a_entry[0], "allocator::Allocator::new_atom", "ATOMS_VEC"),
+                                           ("pair", p_entry[0], "allocator::Allocator::new_pair", "PAIRS_VEC")):
         sw = None
         for b in sorted(forward_reach(f, et["target"])):
             dv = f.discr_variants(b)
@@ -83,7 +148,7 @@ def run(ctx):
         occ = forward_reach(f, edges["Occupied"]) - forward_reach(f, edges["Vacant"])
         creates = [cb for cb, ct in f.calls_to(creator)]
         tpush = [cb for cb, ct in f.calls() if (ct.get("callee") or "").endswith("Vec::<T, A>::push")
-                 and show(f.expr_op(ct["args"][0], deep=False)).endswith(table)]
+                 and show(f.denamed(f.expr_op(ct["args"][0], deep=False), KEEP)).endswith(table)]
         vins = [cb for cb, ct in f.calls() if (ct.get("callee") or "").endswith("VacantEntry::<'a, K, V, A>::insert") or (ct.get("callee") or "").endswith("VacantEntry::<'a, K, V>::insert")]
         vins = [cb for cb in vins if cb in vac]
         ok = len(creates) == 1 and len(tpush) == 1 and creates[0] in vac and tpush[0] in vac and len(vins) == 1 \
@@ -96,31 +161,53 @@ def run(ctx):
               "an existing entry is returned as is (nothing is created)", site=f.where(edges["Occupied"]), detail=occ_calls)
         # pushed value = created node
         pv = show(f.expr_op(f.term(tpush[0])["args"][1], deep=False)) if tpush else None
+        created = None
+        if tpush:
+            pl = mir.op_place(f.term(tpush[0])["args"][1])
+            l_ = pl["l"] if pl and not pl["p"] else None
+            seen_ = set()
+            while l_ is not None and l_ not in seen_ and len(f.defs(l_)) == 1 and f.defs(l_)[0][1] != "T" and "use" in f.def_rvalue(f.defs(l_)[0]) \
+                    and mir.op_place(f.def_rvalue(f.defs(l_)[0])["use"]) and not mir.op_place(f.def_rvalue(f.defs(l_)[0])["use"])["p"]:
+                seen_.add(l_)
+                l_ = mir.op_place(f.def_rvalue(f.defs(l_)[0])["use"])["l"]
+            created = show(f.expr_local(l_)) if l_ is not None else None
+        pv = "new_node" if created is not None and (creator.split("::")[-1] + "(") in created else pv
         ck.ob("R24b", F + f"|{name} recorded", pv == "new_node", f"the node pushed to `{table}` is the node just created", site=f.where(tpush[0]) if tpush else None, detail=pv)
     # R24c
     na = f.calls_to("allocator::Allocator::new_atom")[0][1]
     arg = show(f.expr_op(na["args"][1]))
-    ck.ob("R24c", F + "|atom bytes", "as_ref(&atom)" in arg.replace("AsRef>::", "") or ("as_ref" in arg and "atom" in arg),
+    argd = show(f.denamed(f.expr_op(na["args"][1]), KEEP)).replace(CURX, "CUR")
+    ck.ob("R24c", F + "|atom bytes", "as_ref(&Allocator::atom(&$1, CUR))" in argd.replace("AsRef>::", ""),
           "the interned atom is created from the source atom's bytes", detail=arg[:160])
     np_ = f.calls_to("allocator::Allocator::new_pair")[0][1]
-    pa = [show(f.expr_op(a), short=False) for a in np_["args"][1:]]
-    okp = len(pa) == 2 and "tuple(left_interned, right_interned).0 as Some" in pa[0] and "tuple(left_interned, right_interned).1 as Some" in pa[1]
+    pa = [unopt(canon(dn(f.expr_op(a)))) for a in np_["args"][1:]]
+    okp = pa == ["*(::get(&DONE, &SRCPAIR.0) as Some).0", "*(::get(&DONE, &SRCPAIR.1) as Some).0"]
     ck.ob("R24c", F + "|pair children", okp, "the interned pair is (interned(left) . interned(right)) — the two values of its key, in order",
           detail=[x[:140] for x in pa])
     ins = [(b, t) for b, t in f.calls() if (t.get("callee") or "").endswith("HashMap::<K, V, S, A>::insert")
            and any(x[0] in ("var", "named") and x[2] == n_map for x in walk(f.expr_op(t["args"][0], deep=False)))]
-    keys = [show(f.expr_op(t["args"][1], deep=False)) for _, t in ins]
-    vals = [show(f.expr_op(t["args"][2], deep=False)) for _, t in ins]
-    ck.ob("R24c", F + "|mapping", keys == ["current", "current"] and vals == ["interned", "interned"],
-          "each processed source node is mapped to its interned node (once in the atom arm, once in the pair arm)", detail=list(zip(keys, vals)))
-    root = []
-    for b in f.reachable_blocks():
-        for st in f.stmts(b):
-            rv = st.get("rv", {})
-            if "agg" in rv and isinstance(rv["agg"][0], dict) and rv["agg"][0].get("adt", "").endswith("InternedTree"):
-                root = dict(zip(rv["agg"][0]["fields"], [show(f.expr_op(o)) for o in rv["agg"][1]]))
-    ck.ob("R24c", F + "|result", bool(root) and "index(&node_to_interned, &node)" in root.get("root", "").replace("Index>::", "") and root.get("atoms") == "atoms" and root.get("pairs") == "pairs",
-          "the result's root is node_to_interned[node]; its tables are the recorded ones", detail=root)
-    skip = [show(f.switch_cond(b, deep=False)) for b in f.reachable_blocks() if f.term(b)["k"] == "switch" and "contains_key" in show(f.switch_cond(b, deep=False))]
-    ck.ob("R24c", F + "|visited", len(skip) == 1 and "node_to_interned" in skip[0] and "&current" in skip[0],
+    keys = [show(f.denamed(f.expr_op(t["args"][1], deep=False), KEEP)) for _, t in ins]
+    vals = []
+    for _, t in ins:
+        pl = mir.op_place(t["args"][2])
+        l_ = pl["l"] if pl and not pl["p"] else None
+        seen_ = set()
+        while l_ is not None and l_ not in seen_ and len(f.defs(l_)) == 1 and f.defs(l_)[0][1] != "T" and "use" in f.def_rvalue(f.defs(l_)[0]) \
+                and mir.op_place(f.def_rvalue(f.defs(l_)[0])["use"]) and not mir.op_place(f.def_rvalue(f.defs(l_)[0])["use"])["p"]:
+            seen_.add(l_)
+            l_ = mir.op_place(f.def_rvalue(f.defs(l_)[0])["use"])["l"]
+        srcs = []
+        for d_ in (f.defs(l_) if l_ is not None else []):
+            dx = "call" if d_[1] == "T" else show(f.expr_rvalue(f.def_rvalue(d_)))
+            srcs.append("created" if "Allocator::new_" in dx else "existing" if ("OccupiedEntry" in dx or " as Occupied)" in dx) else "?")
+        vals.append("/".join(sorted(srcs)))
+    ck.ob("R24c", F + "|mapping", keys == ["CUR", "CUR"] and vals == ["created/existing", "created/existing"],
+          "each processed source node is mapped to its interned node (existing entry or node just created), once in the atom arm, once in the pair arm", detail=list(zip(keys, vals)))
+    root = {k: show(f.denamed(f.expr_op(o), KEEP)) for k, (l_, o) in tree_fields.items()}
+    node_params = [i for i in range(1, f.nargs + 1) if f.local_ty(i) == "allocator::NodePtr"]
+    ck.ob("R24c", F + "|result", len(node_params) == 1 and root.get("root", "").replace("Index>::", "") == f"*index(&DONE, &${node_params[0]})"
+          and root.get("atoms") == "ATOMS_VEC" and root.get("pairs") == "PAIRS_VEC",
+          "the result's root is the done-map entry of the requested node; its tables are the recorded ones", detail=root)
+    skip = [show(f.denamed(f.switch_cond(b, deep=False), KEEP)) for b in f.reachable_blocks() if f.term(b)["k"] == "switch" and "contains_key" in show(f.switch_cond(b, deep=False))]
+    ck.ob("R24c", F + "|visited", len(skip) == 1 and "contains_key(&DONE, &CUR)" in skip[0],
           "a source node already mapped is skipped (shared sub-trees are processed once)", detail=skip)
